@@ -42,7 +42,7 @@ Qed.
 (* ---- the table *)
 Lemma upd_entry_cons e t n f :
   upd_entry (e :: t) n f =
-  (if ename e =? n then mkEntry (ename e) (eid e) (f (emem e)) else e) :: upd_entry t n f.
+  (if ename e =? n then mkEntry (ename e) (f (emem e)) else e) :: upd_entry t n f.
 Proof. reflexivity. Qed.
 
 Lemma drop_entry_cons e t n :
@@ -51,7 +51,7 @@ Proof. unfold drop_entry. cbn. now destruct (ename e =? n). Qed.
 
 Lemma find_entry_upd_same t n f :
   find_entry (upd_entry t n f) n =
-  option_map (fun e => mkEntry (ename e) (eid e) (f (emem e))) (find_entry t n).
+  option_map (fun e => mkEntry (ename e) (f (emem e))) (find_entry t n).
 Proof.
   induction t as [|e t IH]; [reflexivity|].
   rewrite upd_entry_cons. cbn [find_entry].
@@ -151,7 +151,7 @@ Qed.
 
 Lemma add_listener_rest s k n :
   objs (add_listener s k n) = objs s /\ nextid (add_listener s k n) = nextid s /\
-  caps (add_listener s k n) = caps s /\ stuck (add_listener s k n) = stuck s.
+  caps (add_listener s k n) = caps s.
 Proof.
   unfold add_listener. destruct (n =? 0); [tauto|].
   destruct (find_entry (tab s) n); cbn; tauto.
@@ -159,7 +159,7 @@ Qed.
 
 Lemma remove_listener_rest s k n :
   objs (remove_listener s k n) = objs s /\ nextid (remove_listener s k n) = nextid s /\
-  caps (remove_listener s k n) = caps s /\ stuck (remove_listener s k n) = stuck s.
+  caps (remove_listener s k n) = caps s.
 Proof.
   unfold remove_listener. destruct (n =? 0); [tauto|].
   destruct (find_entry (tab s) n) as [e|]; [|tauto].
